@@ -144,6 +144,70 @@ def wrapped_colours(ctx):
                         x.close()
 
 
+def interpreter_modes(ctx):
+    """Postconditions forced with enabled=True gate the return in every interpreter mode (default, -O, -OO): the scenarios of
+    vf/scripts/c11_optmode.py whose postcondition is falsy or raises, on a function and on a method."""
+    from vf import modes
+
+    want = {"function/post-violated": ["violation"], "object/post-violated": ["violation"], "function/post-raises": ["KeyError"],
+            "object/post-raises": ["KeyError"], "function/returns": ["ret", 1], "object/returns": ["ret", 1]}
+    for flags in modes.MODES:
+        mode = modes.mode_name(flags)
+        got = modes.run_script("c11_optmode.py", flags)
+        for label, first in sorted(want.items()):
+            ctx.case(["interpreter-mode", mode, label], bool(flags), sample={"directed": "interpreter mode %s: %s" % (mode, label)})
+            ctx.count("directed:interpreter-modes")
+            if (got.get(label) or [None])[0] != first:
+                ctx.fail("interpreter-mode|%s|%s" % (mode, label.split("/")[1]), {"directed": "interpreter-modes"},
+                         "python %s, enabled=True postcondition, %s: expected the outcome %r, got %r" % (
+                             " ".join(flags), label, first, (got.get(label) or [None])[0]))
+
+
+def protected_members(ctx):
+    """Members whose names start with one underscore (`_m`, a property `_p`, a static `_s`) inherit postconditions like any
+    member: base with a postcondition, override without / with an own one, result violating the inherited postcondition."""
+    import icontract
+
+    for kind in ("method", "property", "static"):
+        for own in (False, True):
+            seen = []
+            T = {"base": True}
+
+            def base_post(result):
+                seen.append("base")
+                return T["base"]
+
+            def own_post(result):
+                seen.append("own")
+                return True
+
+            wrap = {"method": lambda f: f, "property": property, "static": staticmethod}[kind]
+            first = (lambda self: 1) if kind != "static" else (lambda: 1)
+            second = (lambda self: 2) if kind != "static" else (lambda: 2)
+            Base = type(icontract.DBC)("Base", (icontract.DBC,), {"_m": wrap(icontract.ensure(base_post)(first))})
+            ov = icontract.ensure(own_post)(second) if own else second
+            Sub = type(icontract.DBC)("Sub", (Base,), {"_m": wrap(ov)})
+            for tb in (True, False):
+                T["base"] = tb
+                del seen[:]
+                try:
+                    r = Sub()._m if kind == "property" else Sub()._m()
+                    got = "returned %r" % (r,)
+                except icontract.ViolationError:
+                    got = "violation"
+                except BaseException as e:  # noqa
+                    got = "%s: %s" % (type(e).__name__, e)
+                want = "returned 2" if tb else "violation"
+                exp_seen = ["base"] + (["own"] if own and tb else [])
+                ctx.case(["protected-member", kind, own, tb], True, sample={"directed": "protected %s `_m`, override %s own postcondition" % (kind, "with" if own else "without")})
+                ctx.count("directed:protected-members")
+                if got != want or seen != exp_seen:
+                    ctx.fail("protected-member|%s" % kind, {"directed": "protected-members"},
+                             "protected %s `_m` overridden in a DBC sub-class (%s own postcondition), inherited postcondition %s: "
+                             "expected %s evaluating %r, got %s evaluating %r" % (kind, "with" if own else "without",
+                                                                                 "holds" if tb else "is violated", want, exp_seen, got, seen))
+
+
 def directed(ctx, only=None):
     """Histories: a contracted function that has ALREADY been called is adopted as the overriding method of a DBC
     sub-class (`class D(B): m = f`); from then on the inherited postconditions gate its returns as well. Sync and async,
@@ -152,6 +216,8 @@ def directed(ctx, only=None):
     from vf.progmodel.run import drive
 
     wrapped_colours(ctx)
+    interpreter_modes(ctx)
+    protected_members(ctx)
     for is_async in (False, True):
         for own_post in (True, False):
             for warm in (True, False):
